@@ -86,6 +86,17 @@ Theorem C14_std_ok_from_json : forall std,
   In (td_bound (d_static std)) [std_static_array_bound_py; std_static_array_bound_spec] -> std_ok std.
 Proof. exact std_ok_from_json. Qed.
 
+(* Histories on ONE Const node (the value it holds changes between observations: the value object is changed in
+   place, `hugr[c].op.val` is re-assigned, or the op is replaced): nothing is remembered — every observation
+   (type_(), serial form, static port, a LoadConstant built now) is the observation of a fresh node holding the
+   value of that moment — and therefore each one satisfies the property for that value. *)
+Theorem C14_history_fresh : forall std steps cur,
+  run_hist std cur steps = map (observe_const std) (held_at cur steps).
+Proof. exact history_fresh. Qed.
+Theorem C14_history_inhabits : forall std, std_ok std -> forall steps cur,
+  Forall2 (obs_ok std) (held_at cur steps) (run_hist std cur steps).
+Proof. exact history_inhabits. Qed.
+
 Print Assumptions C14_values_inhabit_reported_type.
 Print Assumptions C14_helpers_well_typed.
 Print Assumptions C14_raw_sum_well_typed_iff.
@@ -97,3 +108,5 @@ Print Assumptions C14_has_type_b_reflects.
 Print Assumptions C14_type_unique.
 Print Assumptions C14_same_tyb_reflects.
 Print Assumptions C14_std_ok_from_json.
+Print Assumptions C14_history_fresh.
+Print Assumptions C14_history_inhabits.
